@@ -617,3 +617,39 @@ theorem readLLWith_accept (b : Bytes) (extType : Nat) (sl : List SpecLookup) (h 
 end lift2
 
 end SfntV.Otl.LL
+
+namespace SfntV.Otl.LL
+
+/-- **completeness of the replacement loop of `tryReorder`**: if it gives up (the position of the
+moved lookup is still above 0xFFFF), then it has gone through ALL other lookups - the smallest too -
+and replaced every one that shrinks; so the layout with everything replaced is tried before refusing -/
+theorem replLoop_complete (size newSize : Nat → Nat) : ∀ (ts : List Nat) (lastPos : Nat) (rep : List Nat),
+    (replLoop size newSize ts lastPos rep).2 > 0xFFFF →
+    (∀ t ∈ ts, newSize t < size t → t ∈ (replLoop size newSize ts lastPos rep).1) ∧
+    (∀ t ∈ rep, t ∈ (replLoop size newSize ts lastPos rep).1)
+  | [], _, rep, _ => ⟨by intro t ht; simp at ht, fun t ht => ht⟩
+  | t :: ts, lastPos, rep, h => by
+    simp only [replLoop] at h ⊢
+    by_cases hp : lastPos > 0xFFFF
+    · rw [if_pos hp] at h ⊢
+      by_cases hs : newSize t < size t
+      · rw [if_pos hs] at h ⊢
+        obtain ⟨i1, i2⟩ := replLoop_complete size newSize ts _ (t :: rep) h
+        refine ⟨?_, fun x hx => i2 x (by simp [hx])⟩
+        intro x hx hsx
+        rw [List.mem_cons] at hx
+        rcases hx with rfl | hx
+        · exact i2 x (by simp)
+        · exact i1 x hx hsx
+      · rw [if_neg hs] at h ⊢
+        obtain ⟨i1, i2⟩ := replLoop_complete size newSize ts _ rep h
+        refine ⟨?_, i2⟩
+        intro x hx hsx
+        rw [List.mem_cons] at hx
+        rcases hx with rfl | hx
+        · exact absurd hsx hs
+        · exact i1 x hx hsx
+    · rw [if_neg hp] at h
+      exact absurd h hp
+
+end SfntV.Otl.LL
